@@ -314,3 +314,39 @@ func TestVerifWitness_C09_cursor_on_cost_assertion_and_declaration(t *testing.T)
 	}
 	fmt.Println("WITNESS-HOLDS")
 }
+
+// C17 server.extractTagTokensFromComment (witness for the UTF-16 columns; the clauses prove order and containment only):
+// the tag tokens of a comment are positioned in UTF-16 units, not bytes.
+func TestVerifWitness_C17_tag_tokens_after_non_ascii(t *testing.T) {
+	content := "2024-01-01 x  ; заметка 😀, project:альфа, k:v\n    assets:a  1\n    assets:b\n"
+	line := strings.Split(content, "\n")[0]
+	u16 := func(s string) uint32 {
+		n := uint32(0)
+		for _, r := range s {
+			if r >= 0x10000 {
+				n += 2
+			} else {
+				n++
+			}
+		}
+		return n
+	}
+	want := map[string][2]uint32{}
+	for _, lex := range []string{"project:", "альфа", "k:", "v"} {
+		i := strings.LastIndex(line, lex)
+		want[lex] = [2]uint32{u16(line[:i]), u16(lex)}
+	}
+	got := map[[2]uint32]bool{}
+	for _, tk := range tokenizeForSemantics(content) {
+		if tk.line == 0 && (tk.tokenType == TokenTypeTag || tk.tokenType == TokenTypeTagValue) {
+			got[[2]uint32{tk.col, tk.length}] = true
+		}
+	}
+	for lex, w := range want {
+		if !got[w] {
+			fmt.Printf("WITNESS-FAILS no tag token at UTF-16 column %d length %d for %q (tokens: %v)\n", w[0], w[1], lex, got)
+			return
+		}
+	}
+	fmt.Println("WITNESS-HOLDS")
+}
